@@ -16,7 +16,7 @@ stream pipelines (`ExtendedToStreamDecorator` + `StreamFailFast`) anywhere in th
 of an object read never lies below a stream decorator, whose own fields are characterised by `e2s_own` — and
 **every** call history (no bound).
 
-* `holds_model_partial`        : all thirteen clauses of `Spec.C04.clauses` are true of the model's trace (see its docstring for the scope)
+* `holds_model_partial`        : all fourteen clauses of `Spec.C04.clauses` are true of the model's trace (see its docstring for the scope)
 * `C04_verdict`                : `wasSuccessful()` is false exactly when an error / failure / unexpected success was reported
                                  since the last `startTestRun` (on any branch of a `MultiTestResult`)
 * `C04_text_summary_partial`   : what every `TextTestResult` writes (graphs without `ThreadsafeForwardingResult`)
@@ -3411,7 +3411,7 @@ theorem ffStops_states (s : Shape) (hw : s.wf = true) (ho : adaptLeaves s = true
         | some b => cases b <;> simp_all
 
 /-- **Headline (partial).**  Full statement: `∀ i, i.shape.wf → Spec.C04.holds i (model i) = true`.  Proved here for every
-input whose graph has no `TextTestResult` behind a `ThreadsafeForwardingResult`: all thirteen clauses, on every graph the
+input whose graph has no `TextTestResult` behind a `ThreadsafeForwardingResult`: all fourteen clauses, on every graph the
 clause speaks about — stream pipelines (`ExtendedToStreamDecorator` + `StreamFailFast`) included for `failfast-kept`,
 `failfast-read`, `failfast-stops`, `stop-sets`, `stop-sticky`, `not-earlier`; outside the finding class `sysExitZero`
 (a test calling `sys.exit(0)` / `sys.exit()` is reached by `testtools.run`: exit status 0 under a `FAILED` summary). -/
@@ -3433,7 +3433,7 @@ theorem holds_model_partial (i : Input) (hw : i.shape.wf = true)
     intro h
     simp only [inScopeA, Bool.and_eq_true, Bool.or_eq_true, Bool.not_eq_true', beq_iff_eq] at h
     exact h.2
-  refine ⟨?_, ?_, ?_, ?_, ?_, ?_, ?_, ?_, ?_, ?_, ?_, ?_, ?_⟩
+  refine ⟨?_, ?_, ?_, ?_, ?_, ?_, ?_, ?_, ?_, ?_, ?_, ?_, ?_, ?_⟩
   · -- verdict
     cases hn : i.shape.noStream
     · simp [cVerdict, hn]
@@ -3571,8 +3571,29 @@ theorem holds_model_partial (i : Input) (hw : i.shape.wf = true)
         cases c with
         | none => simp at hfind
         | some n => cases n <;> simp_all
+  · -- a stop below is visible above
+    cases hn : i.shape.noStream
+    · simp [cStopVisible, hn]
+    cases hs : inScope i
+    · simp [cStopVisible, hs]
+    · obtain ⟨_, ho, _⟩ := scope hs
+      simp only [cStopVisible, hs, hn, Bool.and_self, Bool.not_true, Bool.false_or, model, List.all_map,
+        List.all_eq_true, Function.comp_apply, beq_iff_eq]
+      intro st _
+      simp only [observe, List.any_map, Function.comp_def, id]
+      exact ss_leaves i.shape ho hn st
 
 /-! ## non-vacuity -/
+/-- `stop-visible` is not vacuous: fail-fast set on the *second* result of a `MultiTestResult` before wrapping; the
+multiplexer reads `failfast` from its first result (false), and still shows the second result's stop -/
+example :
+    let i : Input := { shape := .multi [.tt false, .tt true],
+                       hist := [.startTestRun, .startTest 1, .add .failure 1 (.exc .real), .stopTest 1], prog := none }
+    inScope i = true ∧ i.shape.noStream = true ∧ (model i).ff0 = some false ∧ cStopVisible i (model i) = true ∧
+    (model i).obs.map (fun o => (o.ss, o.leafStop)) =
+      [(false, [false, false]), (false, [false, false]), (true, [false, true]), (true, [false, true])] := by
+  decide
+
 /-- `failfast` assigned on a `ThreadsafeForwardingResult` that is reported to directly is honoured (regression of
 the former finding `tfrOwnFailfastDirect`, D15) -/
 example :
